@@ -1495,17 +1495,29 @@ def extract_fn(src, spec, unit_rules):
         ed.count("R23")
 
     rules = list(unit_rules) + list(spec.get("rewrites", []))
+    decl_only = bool(spec.get("vx_decl_only"))
+    if decl_only:
+        # the function could not be extracted (a lost anchor, an unsupported construct): what remains of it is its
+        # DECLARATION - signature and contract, body dropped - so that its callers in the unit are still judged
+        # against the contract; the obligation itself is reported undecided by the caller of extract_fn
+        ed = Edits()
+        blk0 = item["block"]
+        ed.replace(blk0[0], blk0[1], "{ unimplemented!() }", "decl", subsume=True)
+        spec = {k: v for k, v in spec.items() if k not in ("loop", "closure", "at", "body_start", "body_end", "shims", "let_types", "try_sites", "try_all", "str_eq", "for_map", "for_rev", "for_chars", "map_collect")}
+        rules = [r for r in rules if r in ("R9", "R25")]
     for rname in rules:
         if rname in ("R9", "R15", "R16", "R19", "R23"):
             continue
         if rname not in RULES:
             raise Unsupported(f"unknown rule {rname}")
+        if decl_only and rname != "R25":
+            continue
         RULES[rname](src, item, ed, spec)
     if "shims" in spec and "R24" not in rules:
         r24_call_shim(src, item, ed, spec)
     if "let_types" in spec:
         r28_let_type(src, item, ed, spec)
-    if "iter_params" in spec:
+    if "iter_params" in spec and not decl_only:
         r29_iter_param_to_slice(src, item, ed, spec)
     if "instantiate" in spec:
         r33_instantiate_generics(src, item, ed, spec)
@@ -1605,6 +1617,8 @@ def extract_fn(src, spec, unit_rules):
         text = lift_self(text, spec)
     if spec.get("verifier_attrs"):
         text = "\n".join(f"#[verifier::{x}]" for x in spec["verifier_attrs"]) + "\n" + text
+    if decl_only:
+        text = "#[verifier::external_body]\n" + text
     raw = src.text(a, b)
     return {
         "item": item,
